@@ -46,7 +46,7 @@ static void iso_operator(int item, Ctx& ctx) {
     fe.obj[p.acq[i]].stamp = item; // plain write: I own it now
     vf_log(K_OWN, item, p.acq[i]);
   }
-  if (p.vabort && att == 1) {
+  if (p.vabort && att <= p.vabort_times) {
     vf_log(K_VABORT, item, 0);
     ctx.abort();
   }
